@@ -250,8 +250,9 @@ def make_image(im, path, i, checksum):
     return img
 
 
-def images_canonical(sym, n, perm, cell_perm, dumps):
-    """images of a cell added in any order, cells created in any order, sets iterated in any order"""
+def images_canonical(sym, n, perm, cell_perm, dumps, same_identity=False):
+    """images of a cell added in any order, cells created in any order, sets iterated in any order
+    same_identity: the images of the cell are one image under several paths (equal identity, equal checksums): each is content"""
     sym.option("set_order", "nondet")
     paths = [sym.str("path%d" % i, 2, minlen=1) for i in range(n)]
     sums = [sym.str("sum%d" % i, 2) for i in range(n)]
@@ -267,7 +268,7 @@ def images_canonical(sym, n, perm, cell_perm, dumps):
             variant, arch = cells[c]
             if c == 0:
                 for i in order:
-                    im.add(variant, arch, make_image(im, paths[i], i, sums[i]))
+                    im.add(variant, arch, make_image(im, paths[i], 0 if same_identity else i, sums[0] if same_identity else sums[i]))
             else:
                 im.add(variant, arch, make_image(im, "other/%d" % c, 7 + c, "x"))
         return im
@@ -470,6 +471,8 @@ def jobs(tier, seed):
     for n, perms in ((2, PERMS2), (3, PERMS3 if big else [PERMS3[(seed + 3) % 6], PERMS3[(seed + 4) % 6]])):
         for pi, p in enumerate(perms):
             out.append({"harness": "images_canonical", "params": {"n": n, "perm": p, "cell_perm": PERMS3[(pi + seed) % 6], "dumps": 2}})
+    # one image under two paths in one cell (equal identity, equal checksums), added in both orders
+    out.append({"harness": "images_canonical", "params": {"n": 2, "perm": [1, 0], "cell_perm": [0, 1, 2], "dumps": 1, "same_identity": True}})
     for pi, p in enumerate(PERMS3):
         if big or (pi + seed) % 2 == 0:
             out.append({"harness": "rpms_canonical", "params": {"perm": p, "dumps": 2}})
